@@ -62,6 +62,29 @@ type MarkdownWriter struct {
 	output    strings.Builder
 	imageNum  int
 	footnotes []string
+	rawText   bool // 代码块内原样输出文本（不加标记、不转义）
+}
+
+// markdownEscaper 转义会被Markdown解析为语法的字符
+var markdownEscaper = strings.NewReplacer(
+	"\\", "\\\\", "*", "\\*", "_", "\\_", "`", "\\`", "[", "\\[", "]", "\\]",
+	"<", "\\<", ">", "\\>", "&", "\\&", "#", "\\#", "|", "\\|", "~", "\\~",
+)
+
+// lineStartMarker 匹配行首会被解析为列表标记的文本
+var lineStartMarker = regexp.MustCompile(`^(\d{1,9})([.)])(\s|$)|^([-+])(\s|$)`)
+
+// escapeLineStart 转义行首的列表标记（"1." "-" "+"）
+func escapeLineStart(text string) string {
+	loc := lineStartMarker.FindStringSubmatchIndex(text)
+	if loc == nil {
+		return text
+	}
+	if loc[4] >= 0 {
+		// 数字后面的 . 或 )
+		return text[:loc[4]] + "\\" + text[loc[4]:]
+	}
+	return "\\" + text
 }
 
 // Write 生成Markdown内容
@@ -187,7 +210,9 @@ func (w *MarkdownWriter) writeQuote(para *document.Paragraph) error {
 
 // writeCodeBlock 写入代码块
 func (w *MarkdownWriter) writeCodeBlock(para *document.Paragraph) error {
+	w.rawText = true
 	text := w.extractParagraphText(para)
+	w.rawText = false
 	if strings.TrimSpace(text) == "" {
 		return nil
 	}
@@ -325,7 +350,10 @@ func (w *MarkdownWriter) extractParagraphText(para *document.Paragraph) string {
 		result.WriteString(text)
 	}
 
-	return result.String()
+	if w.rawText {
+		return result.String()
+	}
+	return escapeLineStart(result.String())
 }
 
 // formatRunText 格式化文本运行
@@ -335,8 +363,13 @@ func (w *MarkdownWriter) formatRunText(run *document.Run) string {
 	}
 
 	text := run.Text.Content
-	if text == "" {
-		return ""
+	if text == "" || w.rawText {
+		return text
+	}
+
+	// 代码样式的文本原样放入代码标记，其余文本转义Markdown元字符
+	if run.Properties == nil || !w.isCodeStyle(run.Properties) {
+		text = markdownEscaper.Replace(text)
 	}
 
 	// 检查格式属性
